@@ -433,8 +433,30 @@ impl Gen {
         }
         c
     }
+    /// one task that hands over MANY outputs in one poll (33..=80 events and notifications, more than any
+    /// batch size a forwarding layer might choose), optionally after a request and followed by another
+    /// request and a second burst; optionally wrapped, so that the burst crosses hosting layers
+    fn burst_cmd(&mut self, nvars: usize) -> Cmd {
+        let n1 = 33 + self.rng.below(48);
+        let n2 = if self.rng.coin(1, 3) { 33 + self.rng.below(20) } else { 0 };
+        let evt = 100 + self.rng.below(6);
+        let mut t = Task::Ret;
+        for i in (0..n2).rev() { t = Task::Emit(evt, Expr::K(200 + i), Box::new(t)); }
+        if n2 > 0 { let tg = self.tag(); t = Task::Req(tg, Expr::K(1), 0, Box::new(t)); }
+        for i in (0..n1).rev() {
+            t = if self.rng.coin(1, 9) { let tg = self.tag(); Task::Notify(tg, Expr::K(i), Box::new(t)) } else { Task::Emit(evt, Expr::K(i), Box::new(t)) };
+        }
+        if self.rng.coin(1, 2) { let tg = self.tag(); t = Task::Req(tg, self.expr(nvars), 0, Box::new(t)); }
+        let mut c = Cmd::New(t, vec![]);
+        for _ in 0..self.rng.below(3) {
+            c = match self.rng.below(5) { 0 => Cmd::IdEff(Box::new(c)), 1 => Cmd::All(vec![c]), 2 => Cmd::Then(Box::new(c), Box::new(Cmd::New(Task::Emit(evt, Expr::K(999), Box::new(Task::Ret)), vec![]))),
+                3 => Cmd::MapEv(1 + self.rng.below(2), Box::new(c)), _ => Cmd::And(Box::new(Cmd::New(Task::Ret, vec![])), Box::new(c)) };
+        }
+        c
+    }
     fn cmd(&mut self, depth: u32, nvars: usize) -> Cmd {
         if !self.legacy && self.rng.coin(1, 14) { return self.self_abort_cmd(nvars); }
+        if !self.legacy && self.rng.coin(1, 40) { return self.burst_cmd(nvars); }
         let r = if depth == 0 { self.rng.below(40) } else { self.rng.below(100) };
         match r {
             0..=39 => {
